@@ -170,6 +170,12 @@ pub fn subjects(tier: Tier) -> Vec<Subject> {
         register: false,
     });
     out.push(Subject {
+        name: "pub-fn-without-params-called".into(),
+        src: "pub fn a(x: u8) -> u8 {\n  x + b() + c()\n}\npub fn b() -> u8 {\n  1u8\n}\npub fn c() -> u8 {\n  b()\n}\n".into(),
+        consts: vec![],
+        register: false,
+    });
+    out.push(Subject {
         name: "absent-party-several-consts".into(),
         src: "const A: u8 = P::A;\nconst B: u8 = P::B;\nconst C: usize = Q::C;\nconst D: usize = Q::D;\npub fn main(x: [u8; C]) -> u8 {\n  x[0] + A + B + (D as u8)\n}\n".into(),
         consts: vec![],
